@@ -73,7 +73,8 @@ def visitor_prop_tests(ti: int, oi: int, has_not: bool, c: int) -> bool:
 
 
 # ---------------------------------------------------------------- generator of valid 2.1 patterns with their own syntax tree
-PATHS = ["a:b", "a:b.c", "a:b[1].c", "a:b[*]", "a:'k-1'.c", "file:hashes.'SHA-256'", "a:b_ref.c", "a:b.'c d'"]
+PATHS = ["a:b", "a:b.c", "a:b[1].c", "a:b[*]", "a:'k-1'.c", "file:hashes.'SHA-256'", "a:b_ref.c", "a:b.'c d'", "a:b.'clé'", "a:'ключ'.c", "a:b.'straße_2'.c"]
+NPATH = len(PATHS)
 CMP_OPS = ["=", "!=", ">", "<", ">=", "<=", "IN", "LIKE", "MATCHES", "ISSUBSET", "ISSUPERSET"]
 CONSTS = {  # constant text per kind; the printed form may normalise it (CANON)
     "int": "1", "neg": "-7", "float": "1.5", "str": "'x'", "esc": "'it\\'s \\\\ q'", "bool": "true", "hex": "h'0a'", "bin": "b'YWJj'",
@@ -133,10 +134,10 @@ def check_text(text, want):
 
 def comparisons(ai: int, pi: int, neg: bool) -> bool:
     """
-    pre: 0 <= ai < NATOM and 0 <= pi < 8
+    pre: 0 <= ai < NATOM and 0 <= pi < NPATH
     post: _
     """
-    ai, pi, neg = pick(ai, NATOM), pick(pi, 8), pickb(neg)
+    ai, pi, neg = pick(ai, NATOM), pick(pi, NPATH), pickb(neg)
     with Native():
         text, t = atom(ai, pi, neg)
         if neg and K.open("C10-unused") and False:
@@ -392,16 +393,18 @@ PROG_PATHS = [  # (object type, components, printed path) -- the printed path fo
     ("a", [PT.ReferenceObjectPathComponent("b_ref"), "c"], "a:b_ref.c"),
     ("a", ["b_ref", "k-1"], "a:b_ref.'k-1'"),
     ("email-message", None, "email-message:additional_header_fields.'X-Forwarded-For'[0]"),
+    ("a", [PT.BasicObjectPathComponent("über", False), PT.ListObjectPathComponent("naïve", 2), "ß"], "a:'über'.'naïve'[2].'ß'"),
 ]
+NPROG = len(PROG_PATHS)
 PROG_LHS_TEXT = {8: "email-message:additional_header_fields.X-Forwarded-For[0]"}
 
 
 def programmatic_paths(pi: int, neg: bool, wrap: int) -> bool:
     """
-    pre: 0 <= pi < 9 and 0 <= wrap < 3
+    pre: 0 <= pi < NPROG and 0 <= wrap < 3
     post: _
     """
-    pi, neg, wrap = pick(pi, 9), pickb(neg), pick(wrap, 3)
+    pi, neg, wrap = pick(pi, NPROG), pickb(neg), pick(wrap, 3)
     with Native():
         ok = run_prog_path_case(pi, neg, wrap)
     V.reached()
